@@ -293,12 +293,34 @@ def gen_spec(rng, size):
         fd = "[" + nm.fresh("d", LOWER) + "]"
         sp["free_dims"].append(fd)
         sp["dims"].append(fd)
-    # derived dimensions
-    for _ in range(rng.randint(2, 4)):
-        pool = sp["dims"] + [x["name"] for x in sp["ddims"]]      # derived dimensions may build on derived dimensions
-        ds = rng.sample(pool, 2)
-        sp["ddims"].append({"name": "[" + nm.fresh("x", LOWER) + "]",
-                            "refs": [(ds[0], rng.choice([1, 2])), (ds[-1], rng.choice([-1, -2]))]})
+    # derived dimensions: chains (a derived dimension mostly builds on the most recent derived ones); their lines are
+    # written in random order, so a line may use a derived dimension that is only defined further down
+    dim_exp = {d: {d: F(1)} for d in sp["dims"]}          # the generator's own expansion to base dimensions
+    for _ in range(rng.randint(3, 6)):
+        prev = [x["name"] for x in sp["ddims"]]
+        pool = sp["dims"] + prev
+        first = rng.choice(prev[-2:]) if prev and rng.random() < 0.75 else rng.choice(pool)
+        second = rng.choice([x for x in pool if x != first])
+        refs = [(first, rng.choice([1, 1, 2])), (second, rng.choice([-1, -1, -2, 1]))]
+        name = "[" + nm.fresh("x", LOWER) + "]"
+        e = {}
+        for dn, ex in refs:
+            for b, be in dim_exp[dn].items():
+                e[b] = e.get(b, 0) + be * ex
+        dim_exp[name] = {b: v for b, v in e.items() if v != 0}
+        sp["ddims"].append({"name": name, "refs": refs})
+    rng.shuffle(sp["ddims"])
+    sp["dim_exp"] = dim_exp
+    base_of_dim = {b["dim"]: b["name"] for b in sp["base"]}
+
+    def unit_expr(e):
+        """a unit with exactly this dimensionality, written with base units (None: a dimension without unit is involved)"""
+        if not e or any(d not in base_of_dim for d in e):
+            return None
+        num = " * ".join(f"{base_of_dim[d]} ** {v}" if v != 1 else base_of_dim[d] for d, v in sorted(e.items()) if v > 0) or "1"
+        den = " * ".join(f"{base_of_dim[d]} ** {-v}" if v != -1 else base_of_dim[d] for d, v in sorted(e.items()) if v < 0)
+        return f"({num})" + (f" / ({den})" if den else "")
+    sp["dim_units"] = {d: unit_expr(e) for d, e in dim_exp.items()}
     # @alias lines: an alias of a canonical name, of a symbol or inline alias, and of an alias that an earlier
     # @alias line introduced; lower-case and mixed-case spellings
     mult_targets = [u["name"] for u in sp["units"] if u["name"] not in nonmult] + [b["name"] for b in sp["base"]]
@@ -348,6 +370,14 @@ def gen_spec(rng, size):
             cc = rng.choice(["4", "0.25", "10"])
             ctx["relations"].append({"src": b1["dim"], "dst": "1 / " + b1["dim"], "bidir": True, "eq": f"{cc} / value",
                                      "k": lit_value(cc), "kind": "inverse", "b1": b1["name"], "b2": None})
+        dd = [x["name"] for x in sp["ddims"] if sp["dim_units"][x["name"]] and
+              not (len(sp["dim_exp"][x["name"]]) == 1 and abs(list(sp["dim_exp"][x["name"]].values())[0]) == 1)]
+        if dd:              # a rule keyed on a derived dimension: its key is the expansion of that dimension
+            xd = rng.choice(dd)
+            k2 = rng.choice(["2", "0.5", "8"])
+            ctx["relations"].append({"src": xd, "dst": b2["dim"], "bidir": False,
+                                     "eq": f"value * {k2} * {b2['name']} / ({sp['dim_units'][xd]}) * n", "k": lit_value(k2),
+                                     "kind": "scale", "b1": b1["name"], "b2": b2["name"], "srcu": sp["dim_units"][xd], "srcdim": xd})
         cands = [u for u in sp["units"] if u["name"] not in nonmult and len(u["refs"]) == 1 and u["refs"][0][1] == 1]
         if cands and rng.random() < 0.8:
             u = rng.choice(cands)
@@ -592,6 +622,8 @@ def meaning_of(ureg, sp, sections=None):
     for d in sp["dims"] + [x["name"] for x in sp["ddims"]]:
         dims[d] = safe(lambda: (ureg._dimensions[d].is_base, ucd(getattr(ureg._dimensions[d], "reference", {}) or {})))
     m["dimensions"] = dims
+    m["dimension-expansion"] = {d: safe(lambda: ucd(ureg.get_dimensionality(UC({d: 1})))) for d in sorted(sp["dim_exp"])}
+    m["dimension-check"] = {d: safe(lambda: bool(ureg.Quantity(one, ue).check(d))) for d, ue in sorted(sp["dim_units"].items()) if ue}
     m["groups"] = {g: safe(lambda: tuple(sorted(ureg.get_group(g, False).members))) for g in ["root"] + [x["name"] for x in sp["groups"]]}
     m["group-own-units"] = {x["name"]: safe(lambda: tuple(sorted(ureg.get_group(x["name"], False).non_inherited_unit_names - set(sp["orphans"]))))
                             for x in sp["groups"]}
@@ -619,7 +651,7 @@ def meaning_of(ureg, sp, sections=None):
             res = []
             three = ureg.non_int_type(3) if ureg.non_int_type is not float else 3.0
             for r in c["relations"]:
-                srcu = sp["ctx_units"][r["b1"]]
+                srcu = r.get("srcu") or sp["ctx_units"][r["b1"]]
                 for kw in ({}, {"n": ureg.non_int_type(5) if ureg.non_int_type is not float else 5.0}):
                     if r["kind"] == "scale":
                         dstu = sp["ctx_units"][r["b2"]]
@@ -743,6 +775,7 @@ def checks_from_pint(ureg, sp):
         out.append(f"KPrefix {coq_str(s)} (Some {coq_q(F(p.value))}) {coq_str(p.name)}")
     for d in sp["dims"] + [x["name"] for x in sp["ddims"]]:
         out.append(dim_check(ureg, d))
+        out.append("KReg (" + regk.case_dim(ureg, {d: F(1)}) + ")")      # its expansion to base dimensions
     return out
 
 
@@ -917,7 +950,7 @@ def run(ck):
     ck.rule = ("(a) default_en.txt+constants_en.txt: every spelling's root factor/root units/dimensionality/name/symbol, every "
                "converter, prefix, dimension (Fraction registry, exact); Coq line reader and lexer on every definition line; "
                "(b) %d random definition files (units DAG with decimal factors, prefixes, aliases, symbols, offset and log units, "
-               "derived dimensions, @alias lines (of names, symbols, earlier aliases; also written inline in a twin file), groups with using, systems with both rule forms, contexts with relations, parameters "
+               "chains of derived dimensions in random line order (forward references), @alias lines (of names, symbols, earlier aliases; also written inline in a twin file), groups with using, systems with both rule forms, contexts with relations, parameters "
                "and redefinitions, @defaults, nested @import, comments) x 6 permutations of the unit/prefix/dimension lines x 3 "
                "layouts x loading paths file / list to constructor / load_definitions / define() / cold / warm disk cache, and "
                "non_int_type float/Decimal/Fraction, case_sensitive=False registries and lookups (case variants and prefixed case "
@@ -1283,6 +1316,13 @@ def part_b_file(ck, rng, tmp, fi, sp, quirk, add, fail, stats, thorough, fgroups
                     want = (False, tuple(sorted((n, fr(F(e))) for n, e in dd["refs"])))
                     if m0["dimensions"][dd["name"]] != want:
                         fail("written-meaning:derived-dimension", f"{dd['name']}: written {want}, registry {m0['dimensions'][dd['name']]}", dict(rp, name=dd["name"]))
+                for d, e in sp["dim_exp"].items():
+                    want = tuple(sorted((b, fr(F(v))) for b, v in e.items()))
+                    if m0["dimension-expansion"][d] != want:
+                        fail("written-meaning:dimension-expansion", f"get_dimensionality({d}): the lines say {want}, the registry says "
+                             f"{m0['dimension-expansion'][d]}", dict(rp, name=d))
+                    if d in m0["dimension-check"] and m0["dimension-check"][d] is not True:
+                        fail("written-meaning:dimension-check", f"Quantity(1, {sp['dim_units'][d]!r}).check({d!r}) is {m0['dimension-check'][d]}", dict(rp, name=d))
                 for d in sp["dims"]:
                     if m0["dimensions"][d] != (True, ()):
                         fail("written-meaning:base-dimension", f"{d}: registry says {m0['dimensions'][d]}", dict(rp, name=d))
